@@ -50,6 +50,14 @@ func vfMenu(k int) input.Input {
 		return input.Input{Services: map[string]input.Service{"a": a, "b": b}}
 	case 6:
 		return input.Input{Services: map[string]input.Service{"svc": vfSvc("NewX", "%nope%", "@nope")}}
+	case 9: // a service declared shared that refers to a missing service (no other defect)
+		a := vfSvc("NewA", "@nope")
+		a.Scope = &shared
+		return input.Input{Services: map[string]input.Service{"a": a}}
+	case 10: // a service declared shared that refers to a missing parameter (no other defect)
+		a := vfSvc("NewA", "%nope%")
+		a.Scope = &shared
+		return input.Input{Services: map[string]input.Service{"a": a}}
 	case 7: // a cycle together with a missing service and a missing parameter
 		return input.Input{Services: map[string]input.Service{"a": vfSvc("NewA", "@b", "@nope"), "b": vfSvc("NewB", "@a", "%nope%")}}
 	case 8: // shared-on-contextual together with a missing service in a decorator
@@ -115,7 +123,7 @@ func vfRunBuild(sc vfScenario, quiet, stub, ignoreParams, ignoreServices bool) v
 // kind of fault switched by a symbolic bit, and a configuration from the menu.
 func vfScenarioChoice() vfScenario {
 	sc := vfScenario{readErr: map[string]bool{}, yamlErr: map[string]bool{}, inputs: map[string]input.Input{}}
-	sc.menu = vfChoice("menu", 9)
+	sc.menu = vfChoice("menu", 11)
 	sc.inputs["a.yaml"] = vfMenu(sc.menu)
 	sc.inputs["b.yaml"] = input.Input{Params: map[string]any{"q": "x"}}
 	switch vfChoice("layout", 5) {
@@ -245,7 +253,7 @@ func VF_C10_quiet() {
 // VF_C16_flags: an ignore flag removes exactly the diagnostics of its class.
 func VF_C16_flags() {
 	sc := vfScenario{patterns: []string{"P0"}, globErr: []bool{false}, globFiles: [][]string{{"a.yaml"}},
-		readErr: map[string]bool{}, yamlErr: map[string]bool{}, inputs: map[string]input.Input{"a.yaml": vfMenu(vfChoice("menu", 9))}}
+		readErr: map[string]bool{}, yamlErr: map[string]bool{}, inputs: map[string]input.Input{"a.yaml": vfMenu(vfChoice("menu", 11))}}
 	ip, is := vfBool("ignoreParams"), vfBool("ignoreServices")
 	base := vfRunBuild(sc, false, false, false, false)
 	got := vfRunBuild(sc, false, false, ip, is)
@@ -268,6 +276,13 @@ func VF_C16_flags() {
 		}
 	}
 	vfAssert((got.err == nil) == (len(want) == 0), "accepted iff all remaining violations belong to an ignored class")
+	// the single-class configurations: accepted exactly under the matching flag
+	switch {
+	case vfMenuOnlyMissingParam(sc.inputs["a.yaml"]):
+		vfAssert((got.err == nil) == ip, "a configuration whose only defect is a missing parameter is accepted iff --ignore-missing-params")
+	case vfMenuOnlyMissingService(sc.inputs["a.yaml"]):
+		vfAssert((got.err == nil) == is, "a configuration whose only defect is a missing service is accepted iff --ignore-missing-services")
+	}
 	if base.err == nil {
 		vfAssert(got.err == nil && len(got.writes) == 1 && len(base.writes) == 1 && got.writes[0] == base.writes[0], "a configuration accepted without flags yields the same output under any flags")
 	}
@@ -276,3 +291,16 @@ func VF_C16_flags() {
 	}
 	vfReach("C16_flags")
 }
+
+func vfOnlyArg(in input.Input, arg string) bool {
+	if len(in.Services) != 1 || len(in.Decorators) != 0 {
+		return false
+	}
+	for _, s := range in.Services {
+		return len(s.Args) == 1 && s.Args[0] == arg
+	}
+	return false
+}
+
+func vfMenuOnlyMissingParam(in input.Input) bool   { return vfOnlyArg(in, "%nope%") }
+func vfMenuOnlyMissingService(in input.Input) bool { return vfOnlyArg(in, "@nope") }
